@@ -210,6 +210,7 @@ func cmdDeterminism(args []string) int {
 	fs := flag.NewFlagSet("determinism", flag.ExitOnError)
 	n := fs.Int("n", 40, "runs per world")
 	only := fs.String("world", "", "")
+	from := fs.Int("from", 0, "first run index")
 	_ = fs.Parse(args)
 	self, _ := os.Executable()
 	bad := 0
@@ -219,7 +220,7 @@ func cmdDeterminism(args []string) int {
 		}
 		var outs []string
 		for _, gmp := range []string{"1", "4", "16", "1", "4", "16", "2", "8", "16"} {
-			cmd := exec.Command(self, "dumplog", "-world", w.Name(), "-seed", fmt.Sprint(envSeed()), "-from", "0", "-to", fmt.Sprint(*n))
+			cmd := exec.Command(self, "dumplog", "-world", w.Name(), "-seed", fmt.Sprint(envSeed()), "-from", fmt.Sprint(*from), "-to", fmt.Sprint(*from+*n))
 			cmd.Env = append(os.Environ(), "GOMAXPROCS="+gmp, "VERIF_FORCE_GOMAXPROCS="+gmp)
 			b, err := cmd.Output()
 			if err != nil {
